@@ -52,7 +52,10 @@ class C07(C04):
             h = gen_history(r, 0, maxops=6)
             h["waiters"] = r.choice([2, 3, 4])
             extra.append(h)
-        return job_check(self, "thorough" if deep else tier, seed, monitor, extra)
+        c = job_check(self, "thorough" if deep else tier, seed, monitor, extra)
+        if not c.errors:
+            mt_check(c, "c07", seed, 24 if tier == "quick" and not deep else 300, mt_monitor_tickets)
+        return c
 
 
 PROP = C07()
